@@ -499,3 +499,124 @@ pub fn regress_files(id: &str) -> Vec<String> {
 pub fn boxed<C: std::fmt::Debug + 'static>(s: impl Strategy<Value = C> + 'static) -> BoxedStrategy<C> {
     s.boxed()
 }
+
+// -------------------------------------------------------------------------------------------------
+// coverage-guided campaigns (libFuzzer through cargo-fuzz), thorough tier only
+
+/// Build and run a libFuzzer target from the committed seed corpus for `runs` executions in total, split over
+/// several processes. The semantic oracle lives inside the target (fuzzglue); a violation is reported through the
+/// replay file the target wrote. Crashes without a VIOLATION line (OOM, tool failure) make the block inconclusive.
+pub fn fuzz_block(target: &str, runs: u64, seed: u64, max_len: u32) -> Block {
+    let mut b = Block::new(&format!("libfuzzer_{}", target));
+    let fuzz_dir = format!("{}/fuzz", VERIF_DIR);
+    let rustflags = "--cfg rafalh_rust_fatfs_verif -A unexpected_cfgs";
+    let build = std::process::Command::new("cargo")
+        .args(["+nightly", "fuzz", "build", "-s", "none", "--fuzz-dir", &fuzz_dir, target])
+        .env("RUSTFLAGS", rustflags)
+        .env("CARGO_NET_OFFLINE", "true")
+        .current_dir(VERIF_DIR)
+        .output();
+    match build {
+        Ok(o) if o.status.success() => {}
+        Ok(o) => {
+            eprintln!("fuzz build of {} failed:\n{}", target, String::from_utf8_lossy(&o.stderr).lines().rev().take(15).collect::<Vec<_>>().join("\n"));
+            b.classes.insert("fuzz_build_failed".into(), 1);
+            return b;
+        }
+        Err(e) => {
+            eprintln!("cannot run cargo fuzz: {}", e);
+            b.classes.insert("fuzz_build_failed".into(), 1);
+            return b;
+        }
+    }
+    let procs = n_threads().min(8).max(1) as u64;
+    let per = (runs + procs - 1) / procs;
+    let scratch = std::env::temp_dir().join(format!("fv-fuzz-{}-{}", target, std::process::id()));
+    let _ = std::fs::remove_dir_all(&scratch);
+    let mut children = Vec::new();
+    for p in 0..procs {
+        let corpus = scratch.join(format!("corpus{}", p));
+        let _ = std::fs::create_dir_all(&corpus);
+        let seed_dir = format!("{}/corpus/{}", fuzz_dir, target);
+        if let Ok(rd) = std::fs::read_dir(&seed_dir) {
+            for e in rd.flatten() {
+                let _ = std::fs::copy(e.path(), corpus.join(e.file_name()));
+            }
+        }
+        let stats = scratch.join(format!("stats{}.json", p));
+        let artifacts = scratch.join(format!("artifacts{}/", p));
+        let _ = std::fs::create_dir_all(&artifacts);
+        let child = std::process::Command::new("cargo")
+            .args(["+nightly", "fuzz", "run", "-s", "none", "--fuzz-dir", &fuzz_dir, target, corpus.to_str().unwrap(), "--"])
+            .arg(format!("-runs={}", per))
+            .arg(format!("-seed={}", (seed.wrapping_mul(131).wrapping_add(p + 1)) % 4_000_000_000 + 1))
+            .arg(format!("-max_len={}", max_len))
+            .arg("-len_control=0")
+            .arg("-rss_limit_mb=4096")
+            .arg(format!("-artifact_prefix={}", artifacts.to_str().unwrap()))
+            .env("RUSTFLAGS", rustflags)
+            .env("CARGO_NET_OFFLINE", "true")
+            .env("VERIF_FUZZ_STATS", &stats)
+            .current_dir(VERIF_DIR)
+            .stdout(std::process::Stdio::null())
+            .stderr(std::process::Stdio::piped())
+            .spawn();
+        if let Ok(c) = child {
+            children.push((c, stats));
+        }
+    }
+    for (c, stats) in children {
+        let out = match c.wait_with_output() {
+            Ok(o) => o,
+            Err(_) => continue,
+        };
+        let err = String::from_utf8_lossy(&out.stderr).to_string();
+        let mut done = 0u64;
+        for l in err.lines() {
+            if let Some(rest) = l.strip_prefix("Done ") {
+                done = rest.split(' ').next().and_then(|x| x.parse().ok()).unwrap_or(0);
+            }
+        }
+        if let Ok(s) = std::fs::read_to_string(&stats) {
+            if let Ok(v) = serde_json::from_str::<Value>(&s) {
+                let execs = v["execs"].as_u64().unwrap_or(0);
+                if done == 0 {
+                    done = execs;
+                }
+                // distinct non-trivial cases are counted inside the target (hash set); add pseudo-hashes per process
+                let nt = v["distinct_nontrivial"].as_u64().unwrap_or(0);
+                let base = hash_str(&stats.to_string_lossy());
+                for i in 0..nt {
+                    b.nontrivial.insert(base.wrapping_add(i));
+                }
+                if let Some(m) = v["classes"].as_object() {
+                    for (k, x) in m {
+                        *b.classes.entry(k.clone()).or_insert(0) += x.as_u64().unwrap_or(0);
+                    }
+                }
+            }
+        }
+        b.evaluations += done;
+        if !out.status.success() {
+            if let Some(line) = err.lines().find(|l| l.starts_with("VIOLATION property=")) {
+                let path = line.split("replay=").nth(1).unwrap_or("").trim().to_string();
+                if let Ok(v) = load_replay(&path) {
+                    if b.failure.is_none() {
+                        b.failure = Some(Failure { message: v["message"].as_str().unwrap_or("violation found by libFuzzer").to_string(), case: v["case"].clone(), kind: v["kind"].as_str().unwrap_or("fuzz").to_string() });
+                    }
+                    // the generic report writes its own replay file; remove the target's copy
+                    let _ = std::fs::remove_file(&path);
+                }
+            } else {
+                *b.classes.entry("fuzz_process_ended_abnormally_without_violation".into()).or_insert(0) += 1;
+                let tail: Vec<&str> = err.lines().rev().take(4).collect();
+                eprintln!("libFuzzer {} ended abnormally (inconclusive, not a violation): {:?}", target, tail);
+            }
+        }
+    }
+    if b.samples.is_empty() {
+        b.samples.push(json!({"target": target, "runs_requested": runs, "seed_corpus": format!("{}/corpus/{}", fuzz_dir, target)}));
+    }
+    let _ = std::fs::remove_dir_all(&scratch);
+    b
+}
